@@ -178,6 +178,15 @@ func (rw *rewriter) replaceExpr(e ast.Expr) ast.Expr {
 	return e
 }
 
+func isUnlock(e ast.Expr) bool {
+	c, ok := e.(*ast.CallExpr)
+	if !ok || len(c.Args) != 0 {
+		return false
+	}
+	sel, ok := c.Fun.(*ast.SelectorExpr)
+	return ok && (sel.Sel.Name == "Unlock" || sel.Sel.Name == "RUnlock")
+}
+
 func hasRecv(n ast.Node) bool {
 	found := false
 	ast.Inspect(n, func(m ast.Node) bool {
@@ -227,6 +236,12 @@ func (rw *rewriter) rewriteList(list []ast.Stmt) []ast.Stmt {
 			decl := &ast.AssignStmt{Lhs: []ast.Expr{ast.NewIdent(id)}, Tok: token.DEFINE, Rhs: []ast.Expr{call("verifSpawn")}}
 			out = append(out, &ast.BlockStmt{List: []ast.Stmt{decl, s}})
 		case *ast.ExprStmt, *ast.AssignStmt:
+			if es, ok := s.(*ast.ExprStmt); ok && isUnlock(es.X) {
+				// releasing a lock is a point where another goroutine may get ahead
+				rw.n++
+				out = append(out, s, yieldStmt())
+				continue
+			}
 			if hasRecv(s) {
 				rw.n++
 				out = append(out, yieldStmt(), s, yieldStmt())
